@@ -47,29 +47,34 @@ class ConvRun:
         self.livelock = False
         self.k = 0
         self.on_belt_max = 0
-        self.env.process(self.producer())
+        self.env.process(self.producer("producer", "pcancel", "hold"))
+        if case.get("producer2"):
+            # a second source process on the same belt (a machine with two workers, two upstream nodes sharing an edge through
+            # a user-written merge, ...): its requests queue behind / in front of the first one's in request order
+            self.env.process(self.producer("producer2", "pcancel2", None))
         self.env.process(self.consumer())
 
-    def producer(self):
+    def producer(self, k_script, k_cancel, k_hold):
         from factorysimpy.helper.item import Item
         env = self.env
         il = self.case["conv"].get("il", 1)
-        for i, w in enumerate(self.case["producer"]):
+        for i, w in enumerate(self.case[k_script]):
             yield env.timeout(w)
-            self.req_put.append(env.now)
+            t_req = env.now
+            self.req_put.append(t_req)
             tok = self.edge.reserve_put()
             yield tok
-            pcancel = self.case.get("pcancel")
+            pcancel = self.case.get(k_cancel)
             if pcancel and i < len(pcancel) and pcancel[i]:
                 # what a FIRST_AVAILABLE fan-out node does to the out-edges it did not pick: the granted admission is
                 # withdrawn zero to two kernel hops after the grant, nothing enters
                 for _hop in range(int(pcancel[i]) - 1):
                     yield env.timeout(0)
                 self.t_cancel_put.append(env.now)
-                self.req_put.pop()              # req_put lists the requests that bring an item
+                self.req_put.remove(t_req)      # req_put lists the requests that bring an item
                 tok.resourcename.reserve_put_cancel(tok)
                 continue
-            hold = self.case.get("hold")
+            hold = self.case.get(k_hold) if k_hold else None
             if hold and i < len(hold) and hold[i] > 0:
                 yield env.timeout(hold[i])      # loading time between the grant and the put
             it = Item("x%d" % len(self.items))
